@@ -21,6 +21,7 @@ An `if` without `else` is translated by duplicating the continuation into both b
 from __future__ import annotations
 
 import ast
+import re
 
 from .astutil import (TranslatorError, body_without_docstring, coq_str, find_function,
                       functions_with_parents, parse_module)
@@ -387,6 +388,14 @@ def scan_call_sites():
                     allowed.add(id(node.func))
                 elif node.func.id == "_keep_affixes" and len(node.args) == 2:
                     allowed.add(id(node.args[1]))
+        for node in ast.walk(tree):
+            # module-qualified uses (`path.translate(x)`, `from . import path as p; p.translate_back`) would
+            # escape the list of direct calls: fail closed (bytes/str.translate takes a table and is told
+            # apart by its receiver not being a module alias of stepup.core.path)
+            if isinstance(node, ast.Attribute) and node.attr in ("translate", "translate_back"):
+                recv = ast.unparse(node.value)
+                if node.attr == "translate_back" or re.fullmatch(r"(\w+\.)*(path|_path|pathmod|stepup\.core\.path)", recv):
+                    raise TranslatorError(f"{rel}:{node.lineno}: {recv}.{node.attr} is used through a module attribute")
         for node in ast.walk(tree):
             if (isinstance(node, ast.Name) and node.id in ("translate", "translate_back")
                     and id(node) not in allowed):
